@@ -12,7 +12,7 @@ FUNCTIONS = ['frappy.lib.statemachine.StateMachine.{cycle,start,stop,_cleanup,_n
              'frappy.states.HasStates.{start_machine,stop_machine,doPoll,read_status,on_cleanup,final_status}', 'frappy.modules.Drivable.isBusy']
 ASSUMPTIONS = ['state functions A, B and cleanup chain state C; behaviour of the i-th state call overall is a symbolic code out of '
                '{Retry, Finish, goto A, goto B, non-callable, raise, start(B) from inside, stop() from inside}; after the call budget '
-               '(3 quick / 4 thorough symbolic calls) every state returns Finish and every cleanup returns None',
+               '(3 symbolic calls) every state returns Finish and every cleanup returns None',
                'operation sequences of 3 (quick) / 4 (thorough) operations followed by draining cycles; maxloops = 3',
                'pre-emption between two bytecodes of cycle() itself is outside the claim']
 REQUIRED_TAGS = ['cleanup-ran', 'restarted', 'stopped', 'loop-limit']
@@ -25,7 +25,7 @@ OPS = ['cycle', 'startA', 'startB', 'stop']
 
 def cases(tier):
     depth = 4 if tier == 'thorough' else 3
-    budget = 4 if tier == 'thorough' else 3
+    budget = 3
     out = []
     for first in range(len(OPS)):
         for second in range(len(OPS)):
